@@ -164,7 +164,8 @@ def runC13Case (c : CaseBlock) : IO Unit := do
       feats := feats ++ ["invalid"]
     else
       report c tags
-      IO.println s!"mon C13 FAIL {c.id} {res} family={familyName d.dist}"
+      let site := String.intercalate " " (((outOf op "res").getD []).drop 1)
+      IO.println s!"mon C13 FAIL {c.id} {res} family={familyName d.dist} site={site}"
     IO.println s!"sig {c.id} {String.intercalate "," feats}"
   | _ => IO.println s!"case {c.id} {c.kind} DIFF tags=decode"
 
